@@ -5,13 +5,21 @@ insert / delete / replace_range / replace_range_with / delete_range emits is (a)
 as well (same document: exact tie of apply) and (b) checked with the Lean monitor `respects`
 (lean/PM/Monitor.lean): its range differs from the requested one only by structural tokens and what it
 inserts is an in-order subsequence of the requested content. Props/C11.lean proves what that implies.
+Planning code (exact ties via harness/rangeplan.py): `fits_trivially`, the answer of `replace_step` as far as no Fitter
+is involved, and the range `delete_range` hands to `Transform.delete` (lean/PM/RangeOps.lean; observed through a Transform
+subclass in this process); the Fitter itself — the step `replace_step` emits, exactly, on the bundled-family schemas, and the
+step `delete_range` records (lean/PM/Fitter.lean), with the `fill_before` / `find_wrapping` choices it depends on
+(lean/PM/FillOrder.lean).  Props/C11.lean proves `respects` for these models (`fitsTrivially_respects`, `deleteRange_respects`,
+`fit_range`, `fitter_respects`) instead of only monitoring it.
 Search: on the real code: no exception on the bundled-family schemas (totality — decided by search
 only), `check()` + the independent validator, and content preservation computed from to_json().
 """
+import random
+
 from prosemirror.model import Fragment, Slice
 from prosemirror.transform import Transform
 
-from .. import core, gen, ops, schemas
+from .. import core, gen, ops, rangeplan, schemas
 from ..codec import doc_tokens, frag_tokens
 from ..core import outcome
 from ..validator import validator
@@ -56,6 +64,11 @@ def run(ctx):
         outs = ctx.driver.run(reqs) if reqs else []
         for req, (op, replay, exp), out in zip(reqs, metas, outs):
             ctx.count("model_requests")
+            if op in rangeplan.EXACT_OPS:
+                # planning code modelled in lean/PM/RangeOps.lean, Fitter.lean, FillOrder.lean: exact, including "the code raises"
+                if rangeplan.answer(out) != exp:
+                    ctx.mismatch(op, replay, exp, out)
+                continue
             if out.get("ok") != exp:
                 ctx.mismatch(op, replay, "recorded document" if op == "apply" else exp, out if ("err" in out or op != "apply") else "different document")
         del reqs[:], metas[:]
@@ -70,6 +83,10 @@ def run(ctx):
         val = validator(schema)
         ctx.driver.add_schema(info)
         docs = [gen.gen_doc(rng, schema, budget=rng.choice([6, 12, 25])) for _ in range(ctx.budget(5, 10))]
+        if bundled and si < 2 * len(fam):
+            # the fill / wrap choices the Fitter depends on (lean/PM/FillOrder.lean), exactly, on a private random stream
+            frags = [n.content for d_ in docs for n in [d_] + [d_.child(i) for i in range(d_.child_count)]]
+            rangeplan.tie_fill_wrap(ctx, info, random.Random(ctx.seed * 1000 + si), frags, reqs, metas)
         for d in docs:
             old = doc_tokens(d)
             for _ in range(ctx.budget(14, 40)):
@@ -77,6 +94,16 @@ def run(ctx):
                     break
                 name, args, thunk = ops.plan_op(rng, info, d, docs, ops.REPLACE_FAMILY)
                 f, t, req = requested(name, args, schema)
+                # planning code in front of the Fitter (exact tie with lean/PM/RangeOps.lean): fits_trivially / replace_step's
+                # trivial path for the requested (from, to, slice), and the range delete_range hands to Transform.delete
+                rangeplan.tie_trivial(ctx, info, d, f, t, req, reqs, metas)
+                rangeplan.tie_delete_range(ctx, info, d, f, t, reqs, metas)
+                if bundled:
+                    # the Fitter itself (lean/PM/Fitter.lean): the step replace_step emits for the request, exactly
+                    rangeplan.tie_replace_step(ctx, info, d, f, t, req, reqs, metas)
+                    if name in ("delete_range", "delete"):
+                        # delete_range as a whole (widening + Fitter): the recorded step, exactly
+                        rangeplan.tie_delete_range_step(ctx, info, d, f, t, reqs, metas)
                 tr = Transform(d)
                 st, val_, added = ops.run_op(tr, thunk)
                 replay = {"schema": info.name, "doc": d.to_json(), **ops.describe(name, args)}
@@ -138,7 +165,7 @@ def run(ctx):
         rule="a case is (schema, valid document, one replace-family operation with in-range pair-aligned positions and a "
              "schema-valid slice cut from another document / a valid node); bundled-family schemas (totality) and random "
              "well-founded schemas (validity, content preservation); non-trivial = a step was emitted",
-        level_note="totality ('never raises') is decided by search only: it would need a model of the fitting algorithm with its termination and assertion-freeness")
+        level_note="totality ('never raises') is decided by search only: the fitting algorithm is modelled (lean/PM/Fitter.lean, exact tie) but its termination and assertion-freeness are not proven")
 
 
 if __name__ == "__main__":
